@@ -95,6 +95,24 @@ SetPskScenario(loc, len) ==
                         IF len = 32 /\ loc < 10 THEN [res |-> "ok", obs |-> HsObs(st)]
                         ELSE [res |-> "err", causes |-> {"P_LEN_OR_LOCATION"}, kinds |-> {"Input"}, obs |-> HsObs(st)]) >>]
 
+(* ---- builder setters: a parameter may be set once; psk locations 0..9 ---------------------- *)
+(* (documented: Init(ParameterOverwrite), Init(ValidatePskPosition)); the error arises at the setter *)
+TwiceScenario(which) ==
+  LET ppn == PP("XX", {}, 32, TRUE)
+      cfg == CfgB("i", TRUE, TRUE, {})
+      nm == NameOf("XX", <<>>, "25519", "ChaChaPoly", "SHA256") IN
+  [family |-> "builder", name |-> nm, noreuse |-> FALSE, prm |-> [twice |-> which],
+   steps |-> << Step("build", "I", [role |-> "i", pp |-> ppn, cfg |-> cfg, lack |-> "none", twice |-> which],
+                     [res |-> "err", causes |-> {"B_OVERWRITE"}, kinds |-> {"Init(ParameterOverwrite)"}]) >>]
+PskLocScenario(loc) ==
+  LET ppn == PP("XX", {}, 32, TRUE)
+      cfg == CfgB("i", TRUE, TRUE, {})
+      nm == NameOf("XX", <<>>, "25519", "ChaChaPoly", "SHA256") IN
+  [family |-> "builder", name |-> nm, noreuse |-> FALSE, prm |-> [pskloc |-> loc],
+   steps |-> << Step("build", "I", [role |-> "i", pp |-> ppn, cfg |-> cfg, lack |-> "none", pskloc |-> loc],
+                     IF loc < 10 THEN [res |-> "ok", obs |-> HsObs(Initialize("I", "i", ppn, cfg))]
+                     ELSE [res |-> "err", causes |-> {"B_PSK_LOCATION"}, kinds |-> {"Init(ValidatePskPosition)"}]) >>]
+
 Init == done = FALSE /\ ep = <<>> /\ hist = <<>> /\ aeadLog = {}
 Next ==
   /\ ~done /\ done' = TRUE /\ UNCHANGED vars
@@ -105,6 +123,8 @@ Next ==
        PrintT(<<"SCN", ToJson(KeyLenScenario(role, which, len, dh))>>)
   /\ \A loc \in PskLocs : \A len \in PskLens :
        PrintT(<<"SCN", ToJson(SetPskScenario(loc, len))>>)
+  /\ \A w \in {"s", "rs", "psk", "prologue"} : PrintT(<<"SCN", ToJson(TwiceScenario(w))>>)
+  /\ \A loc \in {5, 9, 10, 11, 200, 255} : PrintT(<<"SCN", ToJson(PskLocScenario(loc))>>)
 Spec == Init /\ [][Next]_<<done, vars>>
 
 (* the derived prerequisites are consistent with what an honest run needs: a role that never uses a
